@@ -76,6 +76,7 @@ type Result struct {
 	Tags       map[string]int `json:"tags"`
 	Findings   []Finding      `json:"findings"`
 	NFindings  int            `json:"n_findings"`
+	PerRegion  map[string]int `json:"findings_per_region,omitempty"`
 	Samples    []any          `json:"samples"`
 	Notes      map[string]any `json:"notes,omitempty"`
 	WallS      float64        `json:"wall_s"`
@@ -130,6 +131,7 @@ func main() {
 		os.Exit(3)
 	}
 	seen := map[string]bool{}
+	perRegion := map[string]int{}
 	for i, req := range ctx.reqs {
 		impl := runImpl(s, req)
 		switch implKind(impl) {
@@ -153,11 +155,13 @@ func main() {
 			if f.Oracle == nil {
 				f.Oracle = resps[i]
 			}
-			if s.Shrink != nil {
-				f = shrinkFinding(s, ctx, orc, f)
-			}
 			res.NFindings++
-			if len(res.Findings) < 200 {
+			rk := f.Kind + "/" + f.Region
+			perRegion[rk]++
+			if perRegion[rk] <= 5 && len(res.Findings) < 400 {
+				if s.Shrink != nil {
+					f = shrinkFinding(s, ctx, orc, f)
+				}
 				res.Findings = append(res.Findings, f)
 			}
 		}
@@ -165,6 +169,7 @@ func main() {
 			res.Samples = append(res.Samples, map[string]any{"req": stripI(req), "impl": impl, "oracle": resps[i]})
 		}
 	}
+	res.PerRegion = perRegion
 	res.Cases = len(ctx.reqs)
 	res.Distinct = len(seen)
 	res.WallS = time.Since(start).Seconds()
